@@ -470,6 +470,35 @@ func checkC03Forwarder(p *Prog, r *Report, rFw, rId, rOrd *Rule, top *ssa.Functi
 	} else {
 		rFw.Bad(fnName(top)+":handover-blocking", posOf(ps.Instr), "the hand-over to the operator channel can give up for a reason other than cancellation: output is dropped when the terminal lags")
 	}
+	/* A chunk given up because the stream was cancelled is the last thing
+	taken from the queue: from the cancellation arm of the hand-over the
+	dequeue is not reached again (else a later chunk can be shown without
+	the one which was dropped — no longer a prefix of what was sent). */
+	if nil != ps.Sel {
+		for k, st := range ps.Sel.States {
+			if k == ps.Arm || types.RecvOnly != st.Dir {
+				continue
+			}
+			cIf, cSucc := selectArmEdge(ps.Sel, k)
+			if nil == cIf {
+				continue
+			}
+			/* (A deterministic look at the context on the way — ctx.Err(),
+			which is not nil once Done has fired — ends the loop; a select
+			with a Done arm does not: with a chunk ready it chooses at
+			random.) */
+			isErrCall := func(i ssa.Instruction) bool {
+				cc := callCommon(i)
+				return nil != cc && cc.IsInvoke() && "Err" == cc.Method.Name() && typeIs(cc.Value.Type(), "context", "Context")
+			}
+			again := reachQ{From: edgeLoc(cIf.Block(), cSucc), Block: isErrCall, Target: func(i ssa.Instruction) bool { return i == ssa.Instruction(dq) }}.run()
+			if nil != again {
+				rFw.Bad(fnName(top)+":dropped-chunk-ends-stream", posOf(ps.Sel), "after a chunk has been given up on (the cancellation arm of the hand-over) the proxy can go back to taking chunks from the queue: a later chunk can reach the operator without the dropped one")
+			} else {
+				rFw.OK(fnName(top)+":dropped-chunk-ends-stream", posOf(ps.Sel), "the cancellation arm leaves the loop")
+			}
+		}
+	}
 	/* Error examined only after the hand-over. */
 	armIf, armSucc := selectArmEdge(dq, dqArm)
 	if nil == armIf {
